@@ -146,6 +146,10 @@ class InlineMethod(_Inliner):
         if only_current:
             resources = [self.original]
             if remove:
+                if self.resource.project != self.project:
+                    raise exceptions.RefactoringError(
+                        "Cannot remove a definition that is outside the project."
+                    )
                 resources.append(self.resource)
         job_set = task_handle.create_jobset("Collecting Changes", len(resources))
         for file in resources:
@@ -266,6 +270,10 @@ class InlineVariable(_Inliner):
         if only_current:
             resources = [self.original]
             if remove and self.original != self.resource:
+                if self.resource.project != self.project:
+                    raise exceptions.RefactoringError(
+                        "Cannot remove a definition that is outside the project."
+                    )
                 resources.append(self.resource)
         changes = ChangeSet("Inline variable <%s>" % self.name)
         jobset = task_handle.create_jobset("Calculating changes", len(resources))
